@@ -8,7 +8,7 @@ from .. import ndarr
 from ..ndarr import Arr, InterpRaise
 from ..absint import Interp
 from ..libmodels import Models
-from ..dv import DV, tags_of
+from ..dv import DV, tags_of, NONZERO_STEPS
 from ..dvrun import explore, bicomplex_aware, tensor_f, DVSession
 from ..pipeline import Pipeline
 
@@ -124,7 +124,7 @@ def guard_case(ctx, core, cls, fshape, method, what, history, nd=None):
         state['kind'] = fk
         x = s.x_array((n,), xk)
         return d(x)
-    ex = explore(ctx.repo, body, pinned={'(np.abs(step) > 0).all()': True})
+    ex = explore(ctx.repo, body, pinned=NONZERO_STEPS)
     bad = []
     for decisions, res, exc in ex.paths:
         path = ', '.join('%s=%s' % (d[1][:30], d[0]) for d in decisions) or 'straight'
@@ -213,7 +213,7 @@ def misuse(ctx):
             f = s.elementwise_f() if fshape is None else tensor_f(s, nn, fshape)
             d = C(f, method='forward', step=StepGenModel(num_steps=steps))
             return d(s.x_array(xshape))
-        exr = explore(repo, body, pinned={'(np.abs(step) > 0).all()': True})
+        exr = explore(repo, body, pinned=NONZERO_STEPS)
         bad = [(exc.exc_name if exc else 'returned a result') for d, r, exc in exr.paths if exc is None or exc.exc_name != 'ValueError']
         rep.check(not bad, 'R-MISUSE', 'finite_difference.LogRule._apply', fd.relpath, {'paths': len(exr.paths), 'outcomes': bad[:3]},
                   'ValueError: fewer steps than the rule needs', '%s forward with %d step, x.shape=%s' % (cls, steps, xshape),
@@ -228,7 +228,7 @@ def misuse(ctx):
                 return Arr((bad_size,), [DV({('f', c)}, 'f') for c in range(bad_size)])
             d = C(f)
             return d(s.x_array((3,) if cls == 'Derivative' else (2,)))
-        exr = explore(repo, body, pinned={'(np.abs(step) > 0).all()': True})
+        exr = explore(repo, body, pinned=NONZERO_STEPS)
         bad = [(exc.exc_name if exc else 'returned') for d, r, exc in exr.paths if exc is None or exc.exc_name != 'ValueError']
         rep.check(not bad, 'R-MISUSE', 'finite_difference.LogRule._vstack', fd.relpath, {'paths': len(exr.paths), 'outcomes': bad[:3]},
                   'ValueError (fun did not return data of correct size)', '%s with f returning %d values' % (cls, bad_size),
@@ -248,7 +248,7 @@ def misuse(ctx):
             L = I.get_global('limits', 'Limit')(f, num_steps=5)
             return I.getattr(L, 'limit')(s.x_array((3,)))
         try:
-            exr = explore(repo, body, pinned={'(np.abs(step) > 0).all()': True})
+            exr = explore(repo, body, pinned=NONZERO_STEPS)
         except AnalysisError as exc:
             rep.undecided('R-MISUSE', 'limits._Limit._vstack', exc, '%s with f returning %d value(s) for 3 inputs' % (what, bad_size))
             continue
